@@ -1104,6 +1104,37 @@ func registerSQL(e *Engine) {
 		ni, li := t.col["name"], t.col["linkname"]
 		return And(StrEq(r.F[ni].(*StrVal), h.F[ni].(*StrVal)), StrEq(r.F[li].(*StrVal), h.F[li].(*StrVal)))
 	}
+	// sqlboiler's generated primary-key helpers: HeaderExists(ctx, exec, name, linkname), FindHeader(ctx, exec, name, linkname, cols...)
+	keyEq := func(t *sqlTable, r *StructVal, name, linkname Value) *Term {
+		ni, li := t.col["name"], t.col["linkname"]
+		return And(StrEq(r.F[ni].(*StrVal), name.(*StrVal)), StrEq(r.F[li].(*StrVal), linkname.(*StrVal)))
+	}
+	I[M+".HeaderExists"] = func(p *Path, fn *ssa.Function, a []Value) Value {
+		if er := p.sqlFault("exists"); er != nil {
+			return TupleVal{FalseT, er}
+		}
+		t := p.tableOf(a[1])
+		t.reads++
+		for _, r := range t.rows {
+			if p.Branch(keyEq(t, r, a[2], a[3])) {
+				return TupleVal{TrueT, NilIface}
+			}
+		}
+		return TupleVal{FalseT, NilIface}
+	}
+	I[M+".FindHeader"] = func(p *Path, fn *ssa.Function, a []Value) Value {
+		if er := p.sqlFault("one"); er != nil {
+			return TupleVal{NilPtr, er}
+		}
+		t := p.tableOf(a[1])
+		t.reads++
+		for _, r := range t.rows {
+			if p.Branch(keyEq(t, r, a[2], a[3])) {
+				return TupleVal{newHeaderPtr(p, t, r), NilIface}
+			}
+		}
+		return TupleVal{NilPtr, p.errNoRows()}
+	}
 	I["(*"+M+".Header).Insert"] = func(p *Path, fn *ssa.Function, a []Value) Value {
 		if er := p.sqlFault("insert"); er != nil {
 			return er
